@@ -255,7 +255,8 @@ def _impl_one(case):
 # the property's oracle, on the real before / after files
 # ------------------------------------------------------------------------------------------------
 DEF_KINDS = ("FunctionDefinitionStart", "ClassDefinitionStart")
-PRIORITY = ["unaligned", "stray-arrow", "wrong-open-paren", "same-line-tail", "indent-sample-not-statement", "indent-under-4", "header-last-node", "async-docstring-removed", "header-resynth",
+PRIORITY = ["unaligned", "stray-arrow", "wrong-open-paren", "same-line-tail", "indent-sample-not-statement", "indent-under-4", "docstring-not-triple-quoted",
+            "triple-quote-in-docstring", "header-last-node", "async-docstring-removed", "header-resynth",
             "docstring-removed", "return-type-changed"]
 
 
@@ -444,10 +445,18 @@ def align(nb, na, parses):
     def span(y):
         return line + (1 if y["value"].startswith("\n") else 0), line + y["value"].count("\n")
 
-    def doc_flags(src_node):
+    def doc_flags(src_node, new_node):
+        import re
+
         if src_node is None:
             return ["header-last-node"]
         fl = []
+        if new_node["value"].count('"' * 3) > 2:
+            # the replacement is always wrapped in three double quotes; text that itself contains them ends the string early
+            fl.append("triple-quote-in-docstring")
+        if not (src_node["kind"] == "TripleQuoted") and re.match(r"""[rRuUbBfF]{0,2}['"]""", src_node["value"].strip()):
+            # the node after the header is a string statement the CST does not class as TripleQuoted (one-quote or prefixed docstring)
+            fl.append("docstring-not-triple-quoted")
         if not src_node["value"].startswith("\n"):
             fl.append("same-line-tail")
         if _lead_ws(src_node["value"]) < 4:
@@ -485,14 +494,14 @@ def align(nb, na, parses):
             continue
         if hdr is not None and isdoc(x) and isdoc(y):
             s, e = span(y)
-            out.append({"what": "doc-replaced", "start": s, "end": e, "hdr": hdr, "flags": doc_flags(x), "op": (i, 1, [y])})
+            out.append({"what": "doc-replaced", "start": s, "end": e, "hdr": hdr, "flags": doc_flags(x, y), "op": (i, 1, [y])})
             line += y["value"].count("\n")
             i += 1
             j += 1
             continue
         if hdr is not None and isdoc(y):
             s, e = span(y)
-            out.append({"what": "doc-added", "start": s, "end": e, "hdr": hdr, "flags": doc_flags(x), "op": (i, 0, [y])})
+            out.append({"what": "doc-added", "start": s, "end": e, "hdr": hdr, "flags": doc_flags(x, y), "op": (i, 0, [y])})
             line += y["value"].count("\n")
             j += 1
             continue
@@ -652,6 +661,14 @@ WITNESSES = [
     ("w-indent2", ["C07-indent-invalid"], 'def g(a):\n  """\n  Doc.\n\n  :param a: the a\n  :type a: ```int```\n  """\n  return a\n', ("rest", True, None), None),
     ("w-comment-indent", ["C07-indent-sample-invalid"], "def g(a):\n# note\n    return a\n", ("rest", False, None), None),
     ("w-blank-indent", ["C07-indent-sample-lines"], "def g(a):\n  \n    return a\n", ("rest", False, None), None),
+    ("w-indent-tab-statements", ["C07-indent-statements", "C07-indent-lines"], 'def g(a):\n\t""" """\n\tz = 3\n\treturn a\n\ndef h(a):\n' + REST_DOC + "    return a\n",
+     ("rest", True, None), None),
+    ("w-one-quote-docstring", ["C07-plain-string-docstring-statements", "C07-plain-string-docstring-lines"],
+     'class C:\n    "Doc."\n    x = 1\n\ndef h(a):\n' + REST_DOC + "    return a\n", ("rest", True, None), None),
+    ("w-raw-docstring", ["C07-plain-string-docstring-statements", "C07-plain-string-docstring-lines"],
+     'class C:\n    r"""Doc \\d."""\n    x = 1\n\ndef h(a):\n' + REST_DOC + "    return a\n", ("rest", True, None), None),
+    ("w-triple-dq-inside", ["C07-triple-quote-in-docstring"],
+     "def g(a):\n    \'\'\'Say \"\"\"hi\"\"\" to a.\n\n    :param a: the a\n    :type a: ```int```\n    \'\'\'\n    return a\n", ("rest", True, None), None),
     ("w-async-sole", ["C07-async-sole-docstring"], 'async def g(a):\n    """Doc."""\n\ndef h(a):\n' + REST_DOC + "    return a\n", ("rest", True, None), None),
     ("w-stub-atomic", [], "def s(a): ...\n\ndef h(a):\n" + REST_DOC + "    return a\n", ("rest", True, None), None),
 ]
